@@ -506,6 +506,7 @@ impl<'tcx> Dumper<'tcx> {
         let mut statics = vec![];
         let mut consts = vec![];
         let mut traits = vec![];
+        let mut macros = vec![];
 
         let items = tcx.hir_crate_items(());
         for ld in items.definitions() {
@@ -538,6 +539,19 @@ impl<'tcx> Dumper<'tcx> {
                                     .contains(rustc_middle::middle::codegen_fn_attrs::CodegenFnAttrFlags::THREAD_LOCAL),
                             ),
                         ),
+                        ("span", self.loc(tcx.def_span(did))),
+                    ]));
+                }
+                DefKind::Macro(..) => {
+                    // macro_rules! definitions: exported ones are part of the crate's trusted surface (their
+                    // expansion in client code may contain `unsafe` the client never wrote)
+                    let item = tcx.hir_expect_item(ld);
+                    let src = tcx.sess.source_map().span_to_snippet(item.span).unwrap_or_default();
+                    macros.push(J::obj(vec![
+                        ("path", J::s(self.path(did))),
+                        ("name", J::s(tcx.item_name(did).to_string())),
+                        ("public", J::Bool(tcx.visibility(did).is_public())),
+                        ("source", J::s(src)),
                         ("span", self.loc(tcx.def_span(did))),
                     ]));
                 }
@@ -617,6 +631,7 @@ impl<'tcx> Dumper<'tcx> {
             ("statics", J::Arr(statics)),
             ("consts", J::Arr(consts)),
             ("traits", J::Arr(traits)),
+            ("macros", J::Arr(macros)),
             ("types", J::Arr(types)),
             ("bodies", J::Obj(bodies)),
         ])
